@@ -411,6 +411,8 @@ CORPUS["C15"] = [
 ]
 
 CORPUS["C16"] = [
+    B("header built by a loop of stores", (RT, '        return AstropyTable(\n            meta={\n                "simTime": (now, "Start time of Simulation"),\n                **flatten_dict(config.model_dump(), "HIERARCH Config", sep=" "),\n            }\n        )\n', '        meta = {"simTime": (now, "Start time of Simulation")}\n        for key, value in flatten_dict(config.model_dump(), "HIERARCH Config", sep=" ").items():\n            meta[key] = value\n        return AstropyTable(meta=meta)\n')),
+    M("header built by a loop that skips falsy values", (RT, '        return AstropyTable(\n            meta={\n                "simTime": (now, "Start time of Simulation"),\n                **flatten_dict(config.model_dump(), "HIERARCH Config", sep=" "),\n            }\n        )\n', '        meta = {"simTime": (now, "Start time of Simulation")}\n        for key, value in flatten_dict(config.model_dump(), "HIERARCH Config", sep=" ").items():\n            if value is None or value:\n                meta[key] = value\n        return AstropyTable(meta=meta)\n')),
     M("header items filtered by truthiness", (RT, '                **flatten_dict(config.model_dump(), "HIERARCH Config", sep=" "),\n', '                **{k: v for k, v in flatten_dict(config.model_dump(), "HIERARCH Config", sep=" ").items() if v},\n')),
     M("header items filtered by 'is not None'", (RT, '                **flatten_dict(config.model_dump(), "HIERARCH Config", sep=" "),\n', '                **{k: v for k, v in flatten_dict(config.model_dump(), "HIERARCH Config", sep=" ").items() if v is not None},\n')),
     B("header items through an unfiltered comprehension", (RT, '                **flatten_dict(config.model_dump(), "HIERARCH Config", sep=" "),\n', '                **{k: v for k, v in flatten_dict(config.model_dump(), "HIERARCH Config", sep=" ").items()},\n')),
